@@ -52,6 +52,7 @@ func runC09(e *Env) Outcome {
 		mk   func() interface{}
 	}
 	templates := []tmpl{{"nil", func() interface{} { return nil }}}
+	structOnStream := false
 	if t.Bool("from-value") {
 		// document = what the real marshaler writes for a generated value
 		vo := gen.DrawValOpts(t)
@@ -92,6 +93,19 @@ func runC09(e *Env) Outcome {
 		o.ForwardRefs = false
 		if f == gen.CTE {
 			o.TopContainer = true
+		}
+		if t.Chance("struct-template", 1, 4) {
+			// a top-level map with keys k1, k2, ... AND keys of other kinds
+			// (numbers, UIDs, ...), read into a struct template with fields K1,
+			// K2, ...: a key that names no field must not disturb the fields
+			// that were complete before it
+			o.TopContainer, o.TopMap = true, true
+			if o.MaxItems < 3 {
+				o.MaxItems = 3
+			}
+			st := c07StructTemplates[t.Intn("struct-template-which", len(c07StructTemplates))]
+			templates = append(templates, tmpl{st.name, st.mk})
+			structOnStream = true
 		}
 		var rej int
 		gdoc, rej = gen.DrawDoc(t, f, o, cfg)
@@ -149,7 +163,7 @@ func runC09(e *Env) Outcome {
 			e.Count("reference_unusable", 1)
 			continue
 		}
-		if ti == 1 {
+		if ti == 1 && !structOnStream {
 			// typed template of the marshaled value: the library's own round
 			// trip must be faithful, otherwise its full value is no reference
 			// (a marshal/unmarshal matter that belongs to other properties,
@@ -176,7 +190,7 @@ func runC09(e *Env) Outcome {
 				e.Count("model_not_applicable", 1)
 			}
 		}
-		if gdoc != nil {
+		if gdoc != nil && ti == 0 {
 			model = buildModel(gdoc)
 			if model == nil {
 				e.Count("model_not_applicable", 1)
